@@ -679,23 +679,49 @@ def run_live_outer(res, ast, rule="LIVE-OUTER"):
             okc, why = False, f"the threshold is `{ast.src1(BC, t_)}`, not the start of the enclosing loop saved in `{P}`"
     res.check(okc, rule, f"{BC}|emit_block|threshold", where(BC, cmps[0][0], "emit_block") if cmps else w,
               "the live-range extension at the end of a loop must leave alone exactly the values created before the enclosing loop's start: " + why)
-    # range_extend decides "first access inside the current loop" from the value's previous last_use: that read must come before the
-    # call that overwrites last_use (read-before-write order; a write first makes the test always false and nothing is kept live over the back edge)
+    # range_extend, evaluated over the order classes of (created, previous last_use) relative to the current loop's start: a value created
+    # before the loop whose previous use (if any) lies before the loop is met for the first time inside this loop and must be registered in
+    # outer_accessed (else nothing keeps it alive over the back edge); in every class the range must afterwards reach the current position.
+    # Registering more than required (a duplicate, a value created inside the loop) only lengthens a live range and is accepted.
     try:
         rx = ast.fn(BC, "range_extend")["node"]
-        writers = {f_["name"] for f_ in ast.find_fns(BC) if f_["node"].get("body") and not is_test_item(f_) and
-                   any(strip_paren(a_["left"])["t"] == "Field" and strip_paren(a_["left"])["member"] == "last_use" for a_ in walk_t(f_["node"]["body"], "Assign"))}
-        writers.discard("range_extend")
-        st_ = rx["body"]["stmts"]
-        first_write = next((i_ for i_, s_ in enumerate(st_) if any(m_["method"] in writers for m_ in walk_t(s_, "MethodCall"))
-                            or any(strip_paren(a_["left"])["t"] == "Field" and strip_paren(a_["left"])["member"] == "last_use" for a_ in walk_t(s_, "Assign"))), None)
-        reads = [i_ for i_, s_ in enumerate(st_) if any(n_.get("t") == "Field" and n_.get("member") == "last_use" for n_ in walk(s_))
-                 and not any(strip_paren(a_["left"])["t"] == "Field" and strip_paren(a_["left"])["member"] == "last_use" for a_ in walk_t(s_, "Assign"))]
-        pushes = [i_ for i_, s_ in enumerate(st_) if any(m_["method"] == "push" and "outer_accessed" in T(ast, m_["receiver"]) for m_ in walk_t(s_, "MethodCall"))]
-        oko = bool(reads) and bool(pushes) and first_write is not None and all(r_ < first_write for r_ in reads)
-        res.check(oko, rule, f"{BC}|range_extend|order", where(BC, rx, "range_extend"),
-                  "range_extend must test the value's previous last_use (first access inside the current loop -> outer_accessed) before it extends the range; "
-                  f"found the read at statement {reads} and the first write at statement {first_write}")
+        import receval
+        from receval import Rec
+        from rusteval import Env as _Env, ReturnEx as _Ret, Unanalysable as _Un, Reached as _Re, NONE as _NONE, Some as _Some
+        ps_ = [p_ for p_ in rx["sig"]["inputs"] if p_["t"] == "Arg"]
+        CS, NOW = 10, 20
+        bad_, n_cls = [], 0
+        for created in (3, 9, 10, 15):
+            for last in (None, 5, 9, 10, 12, 17):
+                if last is not None and last < created:
+                    continue
+                n_cls += 1
+                opt = _NONE if last is None else _Some(last)
+                r_ = Rec(created=created, first_use=opt, last_use=opt, num_uses=0 if last is None else 1)
+                me = Rec(ranges=[Rec(created=0, first_use=_NONE, last_use=_NONE, num_uses=0), r_], current_start=CS, outer_accessed=[], insts=[0] * NOW)
+                it = receval.RecInterp(ast, BC, me)
+                env_ = _Env()
+                try:
+                    if len(ps_) != 1 or ps_[0]["pat"]["t"] != "PIdent":
+                        raise _Un("range_extend(&mut self, value): unexpected parameters")
+                    env_.bind(ps_[0]["pat"]["name"], 1)
+                    try:
+                        it.exec_block(rx["body"], env_)
+                    except _Ret:
+                        pass
+                except (_Un, _Re, KeyError, TypeError, IndexError) as u_:
+                    bad_.append(f"cannot be analysed (fail closed): {u_}")
+                    break
+                cls = f"created {'before' if created < CS else 'inside'} the loop, " + ("never used" if last is None else f"last used {'before' if last < CS else 'inside'} the loop")
+                must = created < CS and (last is None or last < CS)
+                if must and 1 not in me["outer_accessed"]:
+                    bad_.append(f"a value {cls} is not registered in outer_accessed: nothing keeps it alive to the end of the loop")
+                lu = r_["last_use"]
+                if not (hasattr(lu, "some") and lu.some and lu.v == NOW):
+                    bad_.append(f"a value {cls}: last_use is {lu!r} afterwards, it must reach the current position")
+                res.evaluations += 1
+        res.check(not bad_ and n_cls >= 17, rule, f"{BC}|range_extend|order", where(BC, rx, "range_extend"),
+                  "range_extend over the order classes of (created, previous last_use) relative to the current loop start: " + "; ".join(sorted(set(bad_))[:3]))
     except Missing as m_:
         res.missing(rule, m_)
     # restore after the nested block, on the path that changed it
@@ -710,3 +736,93 @@ def inside_inner_loop(outer, node):
         if any(x is node for x in walk(l)):
             return True
     return False
+
+
+def run_gvn_invalidate(res, ast, rule="GVN-INVALIDATE"):
+    """bc::CodeGen::emit_block, the value-number table around a nested block.  emit_block is evaluated (lib/receval.py) on a block holding one
+    Loop / If instruction, the recursive call scripted: it records the table it sees on entry and leaves behind what a nested block leaves
+    (a load of another cell, a sum of two inner temporaries, a constant, and the written cell re-bound to an inner temporary).  The entries
+    stand for classes (outer load of a cell the block writes / does not write, outer constant, outer sum; inner load, inner sum, inner
+    constant), the scenarios enumerate {If, Loop, Loop known to run once} x {block shifts the pointer or not} x {fusion, Scan form}."""
+    import receval, itereval
+    from receval import Rec, Variant, MapV
+    from rusteval import Env as _Env, ReturnEx as _Ret, Unanalysable as _Un, Reached as _Re, NONE as _NONE, UNIT as _UNIT
+    res.rule(rule, "bc::CodeGen::emit_block: before a loop body the value numbers of the cells the body writes are forgotten (all of them when the body shifts); "
+             "after a block that shifts, all; after a block that may be skipped, the cells it writes and every load or computed value created inside it "
+             "(a temporary defined only if the block ran must not be reused after it); the nested call gets the nested block and its own analysis",
+             floor=8, what="scenarios")
+    try:
+        fn = ast.fn(BC, "emit_block")["node"]
+    except Missing as m:
+        res.missing(rule, m)
+        return
+    G = lambda n, *f: itereval.Ctor("GvnExpr::" + n, list(f))
+    W, U, V2 = 5, 6, 7
+    ps = [p["pat"]["name"] for p in fn["sig"]["inputs"] if p["t"] == "Arg" and p["pat"]["t"] == "PIdent"]
+    scen = [("If", False, False, True, False), ("If", False, True, True, False), ("Loop", False, False, True, False), ("Loop", False, True, True, False),
+            ("Loop", True, False, True, False), ("Loop", True, True, True, False), ("Loop", False, True, True, True), ("If", False, False, False, False),
+            ("Loop", False, False, False, False), ("Loop", False, True, False, True)]
+    for kind, once, has_shift, fuse, inner_empty in scen:
+        tag = f"{kind}{' (runs at least once)' if once else ''}, body {'shifts' if has_shift else 'does not shift'}, fuse={str(fuse).lower()}{', empty body' if inner_empty else ''}"
+        E = [G("Mem", W), G("Mem", U), G("Imm", 7), G("Add", 0, 1)]
+        mk = lambda c: Rec(created=c, first_use=_NONE, last_use=_NONE, num_uses=0)
+        me = Rec(values=MapV({e: i for i, e in enumerate(E)}), exprs=list(E), outer_accessed=[], insts=[itereval.Ctor("Instr::Noop", [])] * 3,
+                 ranges=[mk(0) for _ in E], current_start=1, writes=MapV())
+        inner = Rec(insts=[] if inner_empty else [Variant("ir::Instr::Output", {"src": U})], shift=1 if has_shift else 0)
+        inst = Variant("ir::Instr::Loop", {"cond": 0, "block": inner, "once": once}) if kind == "Loop" else Variant("ir::Instr::If", {"cond": 0, "block": inner})
+        sub = Rec(has_shift=has_shift, writes=[] if has_shift else [W], sub_anal=[], min_accessed=0, max_accessed=9)
+        anal = Rec(has_shift=False, writes=[W], sub_anal=[sub], min_accessed=0, max_accessed=9)
+        log = {"calls": 0}
+
+        def nested(it, blk, an, fz, me=me, log=log, inner=inner, sub=sub):
+            log["calls"] += 1
+            log["entry"] = dict(me["values"])
+            log["args_ok"] = blk is inner and an is sub
+            n0 = len(me["exprs"])
+            new = [G("Mem", V2), G("Add", n0, n0), G("Imm", 9)]
+            for e_ in new:
+                me["values"][e_] = len(me["exprs"])
+                me["exprs"].append(e_)
+                me["ranges"].append(mk(len(me["insts"])))
+            me["values"][G("Mem", W)] = n0 + 1          # the body writes W: the cell is re-bound to an inner temporary
+            me["insts"].append(itereval.Ctor("Instr::Out", [U]))
+            log["inner"] = new
+            return _UNIT
+        it = receval.RecInterp(ast, BC, me, scripted={"emit_block": nested})
+        env = _Env()
+        probs = []
+        try:
+            if len(ps) != 3:
+                raise _Un("emit_block(&mut self, block, analysis, fuse): unexpected parameters")
+            for n_, v_ in zip(ps, [Rec(insts=[inst], shift=0), anal, fuse]):
+                env.bind(n_, v_)
+            try:
+                it.exec_block(fn["body"], env)
+            except _Ret:
+                pass
+        except (_Un, _Re, KeyError, TypeError, IndexError, AttributeError) as u_:
+            probs.append(f"cannot be analysed (fail closed): {u_}")
+        res.evaluations += 1
+        if not probs:
+            scan_form = fuse and kind == "Loop" and inner_empty
+            if not scan_form:
+                if log["calls"] != 1:
+                    probs.append(f"the nested block is emitted {log['calls']} times")
+                elif not log["args_ok"]:
+                    probs.append("the nested call does not get the nested block together with its own analysis (sub_anal[block_idx])")
+            if log.get("entry") is not None and kind == "Loop":
+                if has_shift and log["entry"]:
+                    probs.append(f"value numbers survive into a loop body that shifts the pointer: {sorted(map(repr, log['entry']))[:3]}")
+                if not has_shift and G("Mem", W) in log["entry"]:
+                    probs.append("the value number of a cell the loop body writes is still known when the body is entered: the second iteration would reuse the stale load")
+            after = me["values"]
+            if has_shift and after:
+                probs.append(f"value numbers survive a block that shifts the pointer: {sorted(map(repr, after))[:3]}")
+            if not has_shift and not once and not scan_form:
+                if G("Mem", W) in after:
+                    probs.append("after a block that may be skipped the cell it writes still has a value number")
+                left = [e_ for e_ in log.get("inner", []) if e_ in after and e_.name != "GvnExpr::Imm"]
+                if left:
+                    probs.append(f"after a block that may be skipped value numbers created inside it are still known ({', '.join(map(repr, left))}): "
+                                 "their temporaries are undefined when the block did not run")
+        res.check(not probs, rule, f"{BC}|emit_block|{tag}", where(BC, fn, "emit_block"), f"{tag}: " + "; ".join(probs[:2]))
